@@ -183,10 +183,20 @@ def run(ctx):
     cover_stats = {}
     rnd = random.Random(ctx.seed)
 
-    def mc_cover(cfg):
-        name = cfg_variant(ctx, cfg, cfg.replace(".cfg", "_cov.cfg"),
-                           [("PROPERTIES AbsStep", "PROPERTIES AbsStep EdgeEmit"), ("INVARIANTS TypeOK", "INVARIANTS InitEmit TypeOK")])
+    def mc_cover(cfg, judged=True):
+        """Exhaustive run of one configuration that also prints its state graph; returns the cover walks.
+        judged=False: the graph only (no invariants), used for the code shape whose model violates AbsCount."""
+        repl = [("PROPERTIES AbsStep", "PROPERTIES AbsStep EdgeEmit"), ("INVARIANTS TypeOK", "INVARIANTS InitEmit TypeOK")]
+        if not judged:
+            # states that break the abstract clauses are reached (and replayed) but not explored further
+            repl = [("PROPERTIES AbsStep", "PROPERTIES EdgeEmit"),
+                    ("INVARIANTS TypeOK WalkedOK AbsCount RcExact RcSane", "INVARIANTS InitEmit TypeOK WalkedOK"),
+                    ("CONSTRAINT LeakBound", "CONSTRAINT LeakBound AbsCount")]
+        name = cfg_variant(ctx, cfg, cfg.replace(".cfg", "_cov.cfg" if judged else "_graph.cfg"), repl)
+        st, tr = ctx.states, ctx.transitions
         r = ctx.tlc_mc("vmref", "VMRefCover.tla", name, timeout=900 if q else 3000)
+        if not judged:      # nothing was verified in this run: it does not count as explored states
+            ctx.states, ctx.transitions = st, tr
         init, edges = parse_graph(r["out"])
         if init is None or len(edges) + 1 != r["transitions"]:
             raise vlib.Inconclusive("could not read the state graph of %s (%d edges of %d)" % (cfg, len(edges), r["transitions"]))
@@ -194,16 +204,21 @@ def run(ctx):
         if nstates < r["states"]:      # (targets outside the state constraint are printed too)
             raise vlib.Inconclusive("state graph of %s: %d states read, TLC found %d" % (cfg, nstates, r["states"]))
         cover_stats[cfg] = {"states": nstates, "transitions": len(edges), "walks": len(walks),
-                            "actions": sum(len(w) - 1 for w in walks)}
+                            "actions": sum(len(w) - 1 for w in walks), "code_shape_verified": judged}
         return [{"kind": "cov", "hist": w} for w in walks]
 
     covers = []
+    cover_cfgs = MC_QUICK + ([] if q else ["MC_T5.cfg"])
     for cfg in (MC_QUICK if q else MC_QUICK + MC_THOROUGH):
         try:
-            covers.append(mc_cover(cfg))
+            if cfg in cover_cfgs:
+                covers.append(mc_cover(cfg))
+            else:
+                ctx.tlc_mc("vmref", "VMRef.tla", cfg, timeout=3000)
         except vlib.ModelError as e:
-            # a counterexample inside the model is not a verdict: realise it on the real VM (stage 3/4 judge it),
-            # then cover the rest of the state space with the other code shape of the implicated instruction
+            # A counterexample inside the model is not a verdict: it is realised on the real VM (stages 3/4 judge it).
+            # The rest of the state space is verified for the other code shape of the implicated instruction, and
+            # the transition cover is taken from the graph of the shape that was transcribed from the code.
             out = e.res["out"] if e.res else ""
             hist = parse_cex(out)
             if "is violated" not in out or len(hist) < 2 or hist[0]["op"] != "init":
@@ -212,8 +227,10 @@ def run(ctx):
             behaviours.append({"kind": "cex", "hist": hist, "cfg": cfg})
             vlib.log("model counterexample in %s (%d actions, last: %s) -> replay on the real VM" % (
                 cfg, len(hist) - 1, hist[-1]["op"]))
-            cfg_variant(ctx, cfg, cfg.replace(".cfg", "_alt.cfg"), [("MapRemoveDropsFirst = FALSE", "MapRemoveDropsFirst = TRUE")])
-            covers.append(mc_cover(cfg.replace(".cfg", "_alt.cfg")))
+            alt = cfg_variant(ctx, cfg, cfg.replace(".cfg", "_alt.cfg"), [("MapRemoveDropsFirst = FALSE", "MapRemoveDropsFirst = TRUE")])
+            ctx.tlc_mc("vmref", "VMRef.tla", alt, timeout=900 if q else 3000)
+            if cfg in cover_cfgs:
+                covers.append(mc_cover(cfg, judged=False))
     ctx.extra["transition_cover"] = cover_stats
     ctx.extra["model_counterexamples"] = cex_found
     # model-level non-vacuity: the named deviations must be caught by the same invariants
@@ -230,7 +247,8 @@ def run(ctx):
 
     # 2. behaviours of the model (larger heap than the exhaustive runs), both code shapes of REMOVE
     seen = set()
-    sims = [("Sim_Deep.cfg", 80 if q else 1500, 30), ("Sim_Wide.cfg", 40 if q else 800, 45)]
+    sims = [("Sim_Deep.cfg", 60 if q else 1500, 30), ("Sim_Wide.cfg", 30 if q else 800, 45),
+            ("Sim_Struct.cfg", 60 if q else 1500, 25)]
     for i, (cfg, num, depth) in enumerate(sims):
         for h in ctx.tlc_sim("vmref", "VMRefSim.tla", cfg, num=num, depth=depth, timeout=300 if q else 1500,
                              seed=ctx.seed * 10 + i):
@@ -243,7 +261,7 @@ def run(ctx):
     # quick tier: a seeded sample of the cover walks (the evidence says how many); thorough: all of them
     cov = [w for c in covers for w in c]
     rnd.shuffle(cov)
-    budget = 450000 if q else 10 ** 9
+    budget = 600000 if q else 4 * 10 ** 6
     used, n = [], 0
     for w in cov:
         if n + len(w["hist"]) > budget:
@@ -279,17 +297,19 @@ def run(ctx):
         raise vlib.Inconclusive("fewer than 90%% of the model behaviours could be replayed to their end (%s of %s)" % (
             st.get("behaviours_replayed_to_the_end"), st.get("behaviours")))
 
-    # 4. TLC judges every recorded observation against the abstract specification
-    trace = os.path.join(res["_out"], "trace.ndjson")
-    fails = ctx.trace_judge("vmref", "VMTrace.tla", "Trace_VM.cfg", trace, timeout=3000)
+    # 4. TLC judges every recorded observation against the abstract specification (one file at a time)
+    files = sorted(f for f in os.listdir(res["_out"]) if f.startswith("trace-") and f.endswith(".ndjson"))
+    if len(files) != st.get("trace_files"):
+        raise vlib.Inconclusive("trace files missing: %s of %s" % (len(files), st.get("trace_files")))
+    bad_runs = set()
+    for f in files:
+        trace = os.path.join(res["_out"], f)
+        fails = ctx.trace_judge("vmref", "VMTrace.tla", "Trace_VM.cfg", trace, timeout=3000)
+        if fails:
+            bad_runs |= report(ctx, vlib.read_ndjson(trace), fails)
     ctx.traces_validated += res.get("traces", 0)
-    events = None
-    if fails:
-        events = vlib.read_ndjson(trace)
-        report(ctx, events, fails)
-    # 5. binding self-test: a corrupted good trace must be rejected
-    if not fails:
-        selftest(ctx, trace)
+    # 5. binding self-test: a corrupted good trace must be rejected (taken from runs without any failure)
+    selftest(ctx, os.path.join(res["_out"], files[0]), bad_runs)
 
 
 def opname(n):
@@ -306,10 +326,12 @@ def report(ctx, events, fails):
         starts.append(start)
     names = opnames()
     done = set()
+    bad = set()
     for f in sorted(fails, key=lambda x: x["line"]):
         li = f["line"] - 1
         s = starts[li]
         ini, ev = events[s], events[li]
+        bad.add(ini["id"])
         for w in sorted(f["what"]):
             if (s, w) in done:
                 continue
@@ -327,8 +349,11 @@ def report(ctx, events, fails):
             sig = {"kind": w, "op": names.get(cause, opname(cause)) if cause >= 0 else "load", "cyclic": bool(ev.get("c"))}
             if w in ("NoUnderCount", "ExactAcyclic", "ItemsBounded", "CounterBounded") and prev is not None:
                 # types of the (up to 3) top stack items the instruction was executed on, top first
-                ar = {"SETITEM": 3, "APPEND": 2, "REMOVE": 2, "PICKITEM": 2, "HASKEY": 2, "PACK": 1, "PACKMAP": 1, "PACKSTRUCT": 1}
-                sig["operands"] = ",".join(prev.get("tt", "").split(",")[:ar.get(sig["op"], 1)])
+                tt = prev.get("tt", "").split(",")
+                cpos = {"REMOVE": 1, "SETITEM": 2, "APPEND": 1, "PICKITEM": 1, "HASKEY": 1}.get(sig["op"], 0)
+                sig["collection"] = tt[cpos] if cpos < len(tt) else ""      # type of the operand the instruction works on
+                if sig["op"] in ("SETITEM", "APPEND"):
+                    sig["item"] = tt[0]
                 sig["surplus"] = max(-3, min(3, ev.get("r", 0) - ev.get("w", 0)))
             ctx.violation(sig, {
                 "what": "clause %s of VMLimits is false on the real VM after %s (run %s, event %d of the run)" % (
@@ -336,6 +361,7 @@ def report(ctx, events, fails):
                 "class": cls, "script": ini["script"], "gas_limit_limbs": ini["lim"], "price_base": ini.get("base"),
                 "observation": {k: v for k, v in ev.items()},
                 "previous": [{k: v for k, v in e.items() if k != "script"} for e in events[max(s, li - 6):li]]})
+    return bad
 
 
 def opnames():
@@ -354,7 +380,7 @@ def opnames():
     return names
 
 
-def selftest(ctx, trace):
+def selftest(ctx, trace, bad_runs=()):
     """Corrupt one field of a good recorded run and require the trace specification to reject it."""
     runs, cur = [], []
     with open(trace) as f:
@@ -368,7 +394,8 @@ def selftest(ctx, trace):
             elif cur is not None:
                 cur.append(e)
                 if e["e"] == "f":
-                    runs.append(cur)
+                    if cur[0]["id"] not in bad_runs:
+                        runs.append(cur)
                     cur = None
             if len(runs) > 3000:
                 break
